@@ -59,7 +59,7 @@ def compose_flows(u: Tensor, v: Tensor, align_corners: bool = True) -> Tensor:
     r"""Compute composite flow field ``w = v o u = u(x) + v(x + u(x))``."""
     grid = Grid(shape=u.shape[2:], align_corners=align_corners)
     x = grid.coords(channels_last=False, dtype=u.dtype, device=u.device)
-    x = move_dim(x.unsqueeze(0).add_(u), 1, -1)
+    x = move_dim(x.unsqueeze(0).add(u), 1, -1)
     v = F.grid_sample(v, x, mode="bilinear", padding_mode="border", align_corners=align_corners)
     return u.add(v)
 
